@@ -22,7 +22,7 @@ def run(tier):
     thorough = tier == "thorough"
     drv = mc.drivers()
     jobs = [("ptr", "mask"), ("ptr", "lp16"), ("ptr", "lp64u"), ("chain", "mask"), ("chain", "finder"), ("chain", "lp16"),
-            ("chain", "lp64u")]
+            ("chain", "lp64u"), ("chain", "gd")]
     if thorough:
         jobs += [("ptr", "finder"), ("ptr", "lp16_finder"), ("chain", "lp16_finder")]
 
@@ -30,7 +30,7 @@ def run(tier):
         mode, tag = j
         tpath = mc.record(drv["mem_" + tag], wd, mode, tag, thorough)
         return j, mc.validate(chk, tpath, "%s/%s" % (mode, tag))
-    with ThreadPoolExecutor(max_workers=7) as ex:
+    with ThreadPoolExecutor(max_workers=8) as ex:
         results = list(ex.map(one, jobs))
     total, combos = 0, set()
     for (mode, tag), (events, bad) in results:
